@@ -620,6 +620,12 @@ macro_rules! grid {
     };
 }
 
+/// Name for the log channel of the calling worker thread: unique per process and OS thread, so that checks running at the
+/// same time (in different processes) never map -- and truncate, delete -- each other's file
+pub fn scratch_log_name(tag: &str) -> String {
+    format!("verif-{}-{}-{:?}", tag, std::process::id(), std::thread::current().id()).replace(['(', ')'], "")
+}
+
 /// Path of the file the log channel named `name` maps (the crate hard-codes /tmp)
 pub fn mmap_log_path(name: &str) -> String {
     format!("/tmp/{}.mmap", name)
